@@ -170,7 +170,8 @@ pub fn run(tier: Tier, seed: u64) -> i32 {
                     let vol = large_vol((g as usize * ngeo) >> 16, lcs2[(l as usize * lcs2.len()) >> 16].clone());
                     let nt = gen::NameTable::new(&gc, &extra);
                     let cs = vol.cluster_size();
-                    let ops = raws.iter().flat_map(|r| gen::decode_op(&gc, &nt, cs, r)).collect();
+                    let mut mem: Vec<String> = Vec::new();
+                    let ops = raws.iter().flat_map(|r| gen::decode_op(&gc, &nt, cs, r, &mut mem)).collect();
                     Case { vol, ops }
                 }))
             },
